@@ -1,13 +1,62 @@
+pub mod common;
 pub mod conformance;
+pub mod c01;
+
+use std::fs;
+
+use serde_json::Value;
 
 use crate::engine::*;
+use crate::pred::*;
 
 pub fn dispatch(ctx: &Ctx) -> bool {
     match ctx.property.as_str() {
-        _ => false,
+        "C01" => c01::run(ctx),
+        _ => return false,
     }
+    true
 }
 
-pub fn replay(_property: &str, _path: &str) -> i32 {
-    2
+pub fn custom_for(_property: &str) -> Option<CustomFn<'static>> {
+    None
+}
+
+// Re-runs one saved case through the binary (no generator library involved).
+pub fn replay(property: &str, path: &str) -> i32 {
+    let text = match fs::read_to_string(path) {
+        Ok(t) => t,
+        Err(e) => {
+            eprintln!("cannot read {path}: {e}");
+            return 2;
+        },
+    };
+    let v: Value = match serde_json::from_str(&text) {
+        Ok(v) => v,
+        Err(e) => {
+            eprintln!("cannot parse {path}: {e}");
+            return 2;
+        },
+    };
+    let case = match Case::from_json(&v) {
+        Some(c) => c,
+        None => {
+            eprintln!("{path} is not a replay file");
+            return 2;
+        },
+    };
+    match eval_case(&case, Via::Cli, custom_for(property)) {
+        Verdict::Pass => {
+            println!("replay: the case passes on this tree");
+            0
+        },
+        Verdict::Skip(why) => {
+            eprintln!("replay could not be decided: {why}");
+            2
+        },
+        Verdict::Fail(reason) => {
+            eprintln!("replay: {reason}");
+            println!("VIOLATION property={property} replay={path}");
+            1
+        },
+    }
 }
